@@ -1,4 +1,5 @@
 import CookModel.Lemmas.RecipeSimEvent
+import CookModel.Lemmas.SimEventsFull
 /-
   C17, the lift through the analysis pass (4): the event fold `parse_events`.
 -/
@@ -97,5 +98,31 @@ theorem parseEventsLoop_sim (env : Env) (input' input : Str) {evs' evs : List (E
       simp only [parseEventsLoop]
       simp only [TextModeFree] at hf
       exact ih (processEvent_sim env input' input hab hc hf.1) hf.2
+
+theorem parseEvents_sim (env : Env) (input' input : Str) {evs' evs : List (Ev α)}
+    (h : LRel (EvSim env.cs.uws) evs' evs) (hf : TextModeFree env input evs {}) :
+    ResSim env.cs.uws (parseEvents env input' evs') (parseEvents env input evs) :=
+  parseEventsLoop_sim env input' input h (ColSim.init _) hf
+
+theorem ResSim.setPanic {uws : Char → Bool} {r' r : AnalysisResult α} (h : ResSim uws r' r) (p' p : Option String) :
+    ResSim uws { r' with panic := p' } { r with panic := p } := ⟨h.output, h.diags⟩
+
+/-- CRLF conversion of a whole input, through parser and analysis -/
+theorem crlf_parseRecipe_sim (env : Env) (hcs : CrlfSpec env.cs) (hu : UwsNL env.cs) (s : List Char) (hs : CrlfSafe s)
+    (hf : TextModeFree env s (pullEvents (α := α) env.cs env.ext s).1.toList {}) :
+    ResSim env.cs.uws (parseRecipe (α := α) env (crlf s)) (parseRecipe (α := α) env s) := by
+  unfold parseRecipe
+  exact (parseEvents_sim env (crlf s) s (crlf_pullEventsF env.cs hcs hu env.ext s hs) hf).setPanic _ _
+
+/-- what `ResSim` says about validity and the report -/
+theorem ResSim.valid {uws : Char → Bool} {r' r : AnalysisResult α} (h : ResSim uws r' r) :
+    r'.output.isSome = r.output.isSome ∧
+    r'.diags.toList.map (fun d => (d.sev, d.stage, d.kind, d.labels.length)) =
+      r.diags.toList.map (fun d => (d.sev, d.stage, d.kind, d.labels.length)) := by
+  refine ⟨?_, h.diags.map_eq _ _ (fun a b hab => ?_)⟩
+  · have := h.output.isNone
+    cases h1 : r'.output <;> cases h2 : r.output <;> simp [h1, h2] at this ⊢
+  · obtain ⟨h1, h2, h3, h4⟩ := hab
+    simp only [h1, h2, h3, h4]
 
 end Cook
